@@ -48,6 +48,19 @@ def model_check(rep, tier, scratch):
             rep.violation('spec:%s:%s' % (label, res.violated),
                           'Sampler.tla (%s) violates %s: the DESIGN admits a bad state' % (label, res.violated),
                           dict(tlc_out=res.out[-4000:]))
+    if tier == 'thorough':
+        # beyond exhaustive reach: random behaviours of a larger instance (time-boxed)
+        big = dict(NLive=3, NBatch=2, NUpdate=2, NLikeNewBound=6, NPointsMin=1, Levels={0, 1, 2, 3},
+                   MaxBounds=4, MaxPts=14, MaxRej=2, Unlimited='<- MinusOne')
+        cfg = os.path.join(scratch, 'Sampler_sim.cfg')
+        tlc.write_cfg(cfg, spec='SpecRun', constants=big, invariants=MC_INVARIANTS, properties=MC_PROPERTIES,
+                      constraint='MCConstraint')
+        res = tlc.run_tlc('Sampler', cfg, workers=common.NCPU, timeout=900, simulate='num=150', depth=40)
+        rep.add_tlc(res, 'Sampler.tla/simulate_large')
+        if res.violated:
+            rep.violation('spec:simulate:%s' % res.violated,
+                          'Sampler.tla (simulation, larger constants) violates %s' % res.violated,
+                          dict(tlc_out=res.out[-4000:]))
     return rep
 
 
